@@ -39,12 +39,14 @@ spec fn type_wf(t: ast::Type) -> bool
 }
 
 // ---------- expectations that also pin the (single) related range ----------
-pub enum EX { Plain(DP), Rel(DP, ast::Range) }
+pub enum EX { Plain(DP), Rel(DP, ast::Range), Tag(DP, Seq<char>) }
 
 spec fn matches_ex(d: Diagnostic, e: EX) -> bool {
     match e {
         EX::Plain(p) => dp(d) == p,
         EX::Rel(p, r) => dp(d) == p && d.related_infos@.len() == 1 && d.related_infos@[0].range == r,
+        // Tag: the short context message tells the situations of one statement apart ('unused' vs 'unresolved' ...)
+        EX::Tag(p, t) => dp(d) == p && d.context_message is Some && d.context_message->0@ == t && d.related_infos@.len() == 0,
     }
 }
 spec fn plain(xs: Seq<DP>) -> Seq<EX> { xs.map_values(|p: DP| EX::Plain(p)) }
